@@ -305,6 +305,8 @@ pub struct World {
     audit_now: bool,
     /// constant cells: (gc id of the private never-firing stream their CellData owns, weak handle on that CellData)
     const_cells: Vec<(u32, std::sync::Weak<dyn std::any::Any + Send + Sync>)>,
+    /// killer listener -> victim listener (listen_u)
+    killers: HashMap<usize, usize>,
     /// gc ids of objects whose handles are stored as VALUES (candidates of a `sel:` function): values holding
     /// handles are counted references no tracer reports (known-finding class K5), so they are not audited
     value_held: std::collections::HashSet<u32>,
@@ -323,6 +325,7 @@ impl World {
             annotate,
             audit_now: false,
             const_cells: Vec::new(),
+            killers: HashMap::new(),
             value_held: std::collections::HashSet::new(),
         }
     }
@@ -389,6 +392,25 @@ impl World {
         let mut calls: BTreeMap<usize, Vec<String>> = BTreeMap::new();
         let mut rest: Vec<String> = Vec::new();
         let mut ann: Vec<String> = Vec::new();
+        // raw global order of the calls of this line (for the listener-lifecycle oracle), and censoring of a
+        // victim's calls in a line in which its killer was called (unspecified which callback runs first)
+        let order: Vec<String> = obs
+            .iter()
+            .filter_map(|o| if let Ob::Call(l, _) = o { Some(l.to_string()) } else { None })
+            .collect();
+        if !self.killers.is_empty() && !order.is_empty() {
+            ann.push(format!("o={}", order.join(",")));
+        }
+        let dead: Vec<usize> = self
+            .killers
+            .iter()
+            .filter(|(k, _)| obs.iter().any(|o| matches!(o, Ob::Call(l, _) if l == *k)))
+            .map(|(_, v)| *v)
+            .collect();
+        let obs: Vec<Ob> = obs
+            .into_iter()
+            .filter(|o| !matches!(o, Ob::Call(l, _) if dead.contains(l)))
+            .collect();
         for o in obs {
             match o {
                 Ob::Call(l, v) => calls.entry(l).or_default().push(show(&v)),
@@ -854,6 +876,24 @@ impl World {
             "listen" => {
                 let l = self.stream(n(2)).listen(self.listen_closure(n(1)));
                 self.listeners.insert(n(1), l);
+            }
+            "listen_u" => {
+                // a listener whose callback unlistens listener w[3] (which must exist)
+                let victim = n(3);
+                let v = self.listeners.get(&victim).expect("harness: listen_u victim");
+                let v2 = Listener { impl_: v.impl_.clone() };
+                let dep = Dep::new(v2.impl_.gc_node.clone());
+                let log = self.log.clone();
+                let l = n(1);
+                let lst = self.stream(n(2)).listen(lambda1(
+                    move |x: &V| {
+                        log.lock().unwrap().push(Ob::Call(l, x.clone()));
+                        v2.unlisten();
+                    },
+                    vec![dep],
+                ));
+                self.killers.insert(l, victim);
+                self.listeners.insert(l, lst);
             }
             "listen_weak" => {
                 let l = self.stream(n(2)).listen_weak(self.listen_closure(n(1)));
